@@ -155,6 +155,28 @@ func runC09(c *Ctx) {
 			}
 		}
 	}
+	// replace commands whose `with` list has no literal: some matches bind none of the named variables
+	g4 := gramD4(false)
+	for n := 2; n <= c.Pick(4, 5); n++ {
+		if !c.Level(fmt.Sprintf("D4:replace-with-variables:n=%d", n)) {
+			return
+		}
+		for _, raw := range g4.Seqs(n) {
+			body := instantiate(raw, true)
+			if body == nil {
+				continue
+			}
+			unitSrc("replace all "+renderSeq(body)+" with x y", texts("ab", 4))
+		}
+	}
+	if c.Level("replace-with-variables:fixed") {
+		for _, b := range []string{"(digit = d) or letter", "at least 1 ('a' = x) named lp", "maybe ('a' = x) any", "any"} {
+			for _, w := range []string{"d", "lp", "x", "x lp d", "nope"} {
+				unitSrc("replace all "+b+" with "+w, texts("a1", 3))
+				unitSrc("replace skip 1 "+b+" with "+w, texts("a1", 3))
+			}
+		}
+	}
 	gr("D7", gramD7(), c.Pick(3, 4), texts("a\n", 4), false)
 	gr("D4", gramD4(false), c.Pick(4, 5), texts("ab", 4), true)
 	gr("D4min", gramD4min(), c.Pick(4, 5), texts("ab", 4), true)
